@@ -142,7 +142,7 @@ Definition a_cont_resp_headers (es : bool) (a : ast) : list ast :=
 Definition a_state_consume_resp (e : aev) (a : ast) : list ast :=
   match e with
   | ARespData ne => map snd (a_cbs_resp (sx_pb (x_pb a || ne) a))
-  | ARespEOM => a_send_response false (sx_pb false a)
+  | ARespEOM => sx_cr true a :: a_send_response false (sx_pb false a)
   | _ => a_crash a
   end.
 Definition a_state_stream_resp (e : aev) (a : ast) : list ast :=
